@@ -7,9 +7,9 @@ PROP = {
     "targets": [
         {"name": "archive_golden", "mode": "enum"},
         {"name": "s20_golden", "mode": "enum"},
-        {"name": "archive", "quick": 800000, "thorough": 9000000, "maxlen": 768},
-        {"name": "s20", "quick": 400000, "thorough": 3000000, "maxlen": 768},
-        {"name": "s20_trunc", "quick": 100000, "thorough": 1500000, "maxlen": 384},
+        {"name": "archive", "quick": 1200000, "thorough": 9000000, "maxlen": 768},
+        {"name": "s20", "quick": 500000, "thorough": 3000000, "maxlen": 768},
+        {"name": "s20_trunc", "quick": 120000, "thorough": 1500000, "maxlen": 384},
     ],
     "fuzz": [
         {"name": "s20_trunc", "secs": 60, "maxlen": 384},
